@@ -110,11 +110,22 @@ func (db *DB) VerifFile() *os.File { return db.file }
 // happens; kinds follow zzverif/vsched (2 lock, 3 unlock, 4 write-lock request, 5 write unlock, 6 rlock, 7 runlock).
 var VerifPoint func(kind uint8, obj uintptr, arg int) bool
 
+// VerifSequential, when set and true, says that only one goroutine is running: a lock that cannot be taken at once
+// will never be released, so the shim panics instead of blocking forever.
+var VerifSequential func() bool
+
 type vMutex struct{ mu sync.Mutex }
 
 func (m *vMutex) Lock() {
-	if VerifPoint != nil {
-		VerifPoint(2, uintptr(unsafe.Pointer(m)), 0)
+	if VerifPoint != nil && VerifPoint(2, uintptr(unsafe.Pointer(m)), 0) {
+		m.mu.Lock()
+		return
+	}
+	if VerifSequential != nil && VerifSequential() {
+		if !m.mu.TryLock() {
+			panic(errors.New("bbolt: lock would block forever (held by an unfinished transaction; nobody else is running)"))
+		}
+		return
 	}
 	m.mu.Lock()
 }
@@ -131,6 +142,14 @@ type vRWMutex struct{ mu sync.RWMutex }
 func (m *vRWMutex) Lock() {
 	if VerifPoint != nil && VerifPoint(4, uintptr(unsafe.Pointer(m)), 0) {
 		VerifPoint(2, uintptr(unsafe.Pointer(m)), 0)
+		m.mu.Lock()
+		return
+	}
+	if VerifSequential != nil && VerifSequential() {
+		if !m.mu.TryLock() {
+			panic(errors.New("bbolt: lock would block forever (a transaction is still open; nobody else is running)"))
+		}
+		return
 	}
 	m.mu.Lock()
 }
@@ -143,8 +162,15 @@ func (m *vRWMutex) Unlock() {
 }
 
 func (m *vRWMutex) RLock() {
-	if VerifPoint != nil {
-		VerifPoint(6, uintptr(unsafe.Pointer(m)), 0)
+	if VerifPoint != nil && VerifPoint(6, uintptr(unsafe.Pointer(m)), 0) {
+		m.mu.RLock()
+		return
+	}
+	if VerifSequential != nil && VerifSequential() {
+		if !m.mu.TryRLock() {
+			panic(errors.New("bbolt: read lock would block forever (nobody else is running)"))
+		}
+		return
 	}
 	m.mu.RLock()
 }
